@@ -87,6 +87,7 @@ type Sorts struct {
 	seqs    map[string]string      // seq sort -> elem sort
 	typeIDs map[string]int
 	heapAll bool // pragma: all slices (except E/Val/byte) on the heap (default in int mode)
+	owner   map[string]string // struct sort name -> full path of the Go type it stands for
 }
 
 func newSorts(mode ArithMode) *Sorts {
@@ -264,6 +265,18 @@ func (s *Sorts) structSort(t types.Type, u *types.Struct) string {
 		if n.TypeArgs() != nil && n.TypeArgs().Len() > 0 {
 			name += "_" + smtName(typeKey(n.TypeArgs().At(0)))
 		}
+		// two packages with the same name (sync, internal/sync) may declare the same type name
+		full := n.Obj().Name()
+		if n.Obj().Pkg() != nil {
+			full = n.Obj().Pkg().Path() + "." + full
+		}
+		if s.owner == nil {
+			s.owner = map[string]string{}
+		}
+		if prev, ok := s.owner[name]; ok && prev != full {
+			name = fmt.Sprintf("%s_%x", name, hashString(full)%0xffff)
+		}
+		s.owner[name] = full
 	} else if a, ok := t.(*types.Alias); ok {
 		return s.structSort(types.Unalias(a), u)
 	} else {
